@@ -38,7 +38,7 @@ def gen_case(rng, store):
         checks.append({"desc": "uniq", "type": "IsUnique", "fields": ["f%d" % first]})
         checks.append({"desc": "uniq two", "type": "IsUnique", "fields": ["f%d" % second]})
     header = rng.choice([0, 0, 1, 2])
-    model = RM.CidModel(kind, fields, checks, header, dec, ths, line_delimiter=rng.choice(["lf", "cr", "crlf", None]) if kind == "fixed" else None)
+    model = RM.CidModel(kind, fields, checks, header, dec, ths, line_delimiter=rng.choice(["lf", "cr", "crlf", None, "any", "none"]) if kind == "fixed" else None)
     if kind == "delimited":
         # the default dialect, another quote character, or an escape character different from the quote character
         model.quote, model.escape = rng.choice([('"', '"'), ('"', '"'), ("'", '"'), ('"', "\\"), ("'", "\\")])
